@@ -19,11 +19,15 @@
     condition follows from record-level facts: the module has a range, its STACK CFI records are
     non-empty, inside the module and pairwise disjoint (`oneModOkB`), and the FIRST record of the list
     covering each lookup address is the canonical one (`gcfiSideOne`: a linear search, no range tables).
+  * `preScan_layout` / `walk_layout_scan_generated` (ARM64 ×2, MIPS64) / `walk_layout_scan_generated32` (x86,
+    x86-64, ARM not iOS, MIPS32 with its four skipped words) — scan-only chains: junk words `< 4096` that
+    are no valid instructions, within the scan windows; stacks that END with the outermost return address.
 -/
 import MdProofs.C04
 import MdProofs.Lemmas.WalkGenFp
 import MdProofs.Lemmas.WalkGenCfi
 import MdProofs.Lemmas.WalkGenSide
+import MdProofs.Lemmas.WalkGenScan
 import MdProofs.C04Cfi
 namespace MdModel.Walk
 open MdModel
@@ -201,5 +205,78 @@ example : gcfiSideOne { base := 0x400000, size := 0x1000, name := "m0" }
     .amd64 0x400110 true
     [{ n := 3, saves := true, ret := 0x400220, fpv := 0 }, { n := 2, saves := false, ret := 0x400500, fpv := 0 }] = true := by
   rfl
+
+theorem gscanWords_split (s0 tail : Nat) (frames : List ScFr) :
+    gscanWords s0 tail frames = List.replicate s0 0 ++ (gscanBody frames ++ List.replicate tail 0) := by
+  simp only [gscanWords, List.append_assoc]
+
+/-- "findable only by scanning": the scan-only generator's stacks satisfy `preScan`, for ALL its
+    parameters (stack base `≥ 4096`, word position of the stack pointer, per frame its junk words and
+    return address, `tail` zero words behind the last frame — `tail = 0`: the stack ENDS with the
+    outermost return-address slot), on every architecture — given `gscanFramesOk`: the junk words the
+    walker looks at are `< 4096` and not valid instructions, fewer than the scan window (160 / 40;
+    MIPS64 128; MIPS32 256 / 252 after the four skipped words of every frame but the topmost), the
+    return addresses are valid instructions `≥ 4096` -/
+theorem preScan_layout (env : Env) (a : Arch) (os : Os) (base s0 tail : Nat) (frames : List ScFr) (ctx : Ctx)
+    (hv : ctx.valid = none) (hsp : ctx.sp = pAddr a.ptr base s0) (hfp : ctx.raw a a.fpName = 0)
+    (hios : a = .arm → os ≠ .ios) (hbase : 4096 ≤ base)
+    (htop : base + a.ptr * (gscanWords s0 tail frames).length ≤ a.regMax)
+    (hok : gscanFramesOk env a true frames = true) :
+    preScan env a os (wordsMemP a.ptr base (gscanWords s0 tail frames)) ctx (gscanChain a.ptr base s0 frames) = true := by
+  have hfrom := preScan_gen_aux env a base tail (gscanWords s0 tail frames) htop frames s0 true (List.replicate s0 0)
+    (gscanWords_split s0 tail frames) (by simp) hok
+  have hi : (!(decide (a = .arm) && decide (os = .ios))) = true := by
+    by_cases h : a = .arm
+    · have := hios h; simp [h, this]
+    · simp [h]
+  simp only [preScan, hv, hfp, hsp, wordsMemP_base, hbase, hfrom, hi, Option.isNone_none, decide_true, Bool.and_self]
+
+/-- **every scan-only stack the generator's layout function produces is walked to its chain**
+    (ARM64 both context layouts, MIPS64): any environment without STACK CFI in which
+    `gscanFramesOk` holds -/
+theorem walk_layout_scan_generated (env : Env) (a : Arch) (harch : env.arch = a) (ha : a.plainScan64 = true)
+    (hcfi : NoCfi env) (base s0 tail : Nat) (frames : List ScFr) (ctx : Ctx)
+    (hv : ctx.valid = none) (hsp : ctx.sp = pAddr a.ptr base s0) (hfp : ctx.raw a a.fpName = 0)
+    (h64 : a = .mips64 → ctx.m64 = true)
+    (hlen : 0 < (gscanWords s0 tail frames).length)
+    (htop : base + a.ptr * (gscanWords s0 tail frames).length ≤ a.regMax)
+    (hok : gscanFramesOk env a true frames = true) :
+    walk env (some (wordsMemP a.ptr base (gscanWords s0 tail frames))) ctx =
+      symbolise env (Frame.ofCtx ctx .context) :: expectedScan env a (gscanChain a.ptr base s0 frames) := by
+  have hm : (wordsMemP a.ptr base (gscanWords s0 tail frames)).range?.isSome = true :=
+    wordsMemP_range a.ptr base _ (ptr_pos a) hlen (by have := regMax_le_u64 a; omega)
+  refine walk_layout_scan env a harch ha hcfi _ hm ctx hv hfp h64 _ ?_
+  rw [hsp]
+  exact preScan_gen_aux env a base tail (gscanWords s0 tail frames) htop frames s0 true (List.replicate s0 0)
+    (gscanWords_split s0 tail frames) (by simp) hok
+
+/-- the same on x86, x86-64, ARM (not iOS) and MIPS32 (four skipped words on every frame but the
+    topmost): stack base `≥ 4096` -/
+theorem walk_layout_scan_generated32 (env : Env) (a : Arch) (harch : env.arch = a) (ha : a.scan32 = true)
+    (hos : a = .arm → env.os ≠ .ios) (hcfi : NoCfi env) (hok0 : a = .arm → env.instrOk 0 = false)
+    (base s0 tail : Nat) (frames : List ScFr) (ctx : Ctx)
+    (hv : ctx.valid = none) (hsp : ctx.sp = pAddr a.ptr base s0) (hfp : ctx.raw a a.fpName = 0)
+    (h64 : ctx.m64 = false) (hbase : 4096 ≤ base) (hin : s0 ≤ (gscanWords s0 tail frames).length)
+    (hlen : 0 < (gscanWords s0 tail frames).length)
+    (htop : base + a.ptr * (gscanWords s0 tail frames).length ≤ a.regMax)
+    (hok : gscanFramesOk env a true frames = true) :
+    walk env (some (wordsMemP a.ptr base (gscanWords s0 tail frames))) ctx =
+      symbolise env (Frame.ofCtx ctx .context) :: expectedScan32 env a (gscanChain a.ptr base s0 frames) := by
+  have hm : (wordsMemP a.ptr base (gscanWords s0 tail frames)).range?.isSome = true :=
+    wordsMemP_range a.ptr base _ (ptr_pos a) hlen (by have := regMax_le_u64 a; omega)
+  have hsp' : ctx.sp ≤ a.regMax := by
+    have : a.ptr * s0 ≤ a.ptr * (gscanWords s0 tail frames).length := Nat.mul_le_mul_left _ hin
+    rw [hsp]; simp only [pAddr]; omega
+  refine walk_layout_scan' env a harch ha hos hcfi hok0 _ hm hbase ctx hv hfp h64 hsp' _ ?_
+  rw [hsp]
+  exact preScan_gen_aux env a base tail (gscanWords s0 tail frames) htop frames s0 true (List.replicate s0 0)
+    (gscanWords_split s0 tail frames) (by simp) hok
+
+-- non-vacuity: a MIPS32 two-frame stack (one junk word; then four skipped words, one junk word), ending
+-- with the outermost return-address slot, spelled out
+example : gscanWords 1 0 [{ junk := [7], ret := 0x400120 }, { junk := [0, 0, 0, 0, 9], ret := 0x400500 }] =
+    [0, 7, 0x400120, 0, 0, 0, 0, 9, 0x400500] := by decide
+example : (gscanChain 4 0x8000 1 [{ junk := [7], ret := 0x400120 }, { junk := [0, 0, 0, 0, 9], ret := 0x400500 }]).map
+    (fun e => (e.ret, e.sp, e.fp)) = [(0x400120, 0x800c, none), (0x400500, 0x8024, none)] := by decide
 
 end MdModel.Walk
